@@ -10,7 +10,7 @@ from vlib.nlp import close, DMa
 
 ID = "C19"
 LEVEL = "exploration"
-BUDGET = {"quick": (8, 14), "thorough": (16, 250)}
+BUDGET = {"quick": (8, 14), "thorough": (16, 500)}
 RULE = ("Generated strictly convex linear-quadratic OCPs (1-2 states, 1-2 controls, random stable-ish A/B, global vector parameter as initial state, per-interval reference parameter, scalar weight parameter, "
         "inactive or active control bounds) x MultipleShooting|SingleShooting|DirectCollocation x N, M, grid x a generated choice of function arguments (any subset of the parameters, state and control "
         "guesses) and argument values. Oracles: (i) with a converged ipopt (tol 1e-10) the outputs of ocp.to_function equal sol.sample / sol.value after the same values were assigned with set_value / "
